@@ -114,4 +114,42 @@ theorem InvW_step {s : St} {t : Tid} {c : Choice} (h : Inv s) (he : enabled s t 
           (h.none _ (by simp [hpc, nonePC])) hjoin
     · exact w_worker_generic hv h.w h.kind (h.bounds.use _) (h.bounds.ex _) hwk (by simpa using hsp)
 
+/-! ### the invariants hold initially, after every step, after every eviction -/
+
+theorem Inv_step {s : St} {t : Tid} {c : Choice} (h : Inv s) (he : enabled s t = true) : Inv (step s t c) :=
+  { kind := InvKind_step h.kind he
+    mgr := InvMgr_step h.mgr he
+    tx := InvTx_step h.kind h.tx he
+    join := InvJoin_step h.kind h.join he
+    defers := InvDefers_step h.kind h.defers he
+    bounds := InvBounds_step h.kind h.bounds
+    rd := InvRd_step h.kind h.defers h.bounds h.rd he
+    pub := InvPub_step h.kind h.mgr h.tx h.bounds h.pub
+    names := InvNames_step h.kind h.bounds h.names
+    keys := InvKeys_step h.keys
+    none := InvNone_step h.kind h.tx h.none
+    remsub := InvRemSub_step h.kind h.tx h.remsub
+    pend := InvPend_step h.kind h.tx h.pend he
+    w := InvW_step h he }
+
+theorem Inv_evict {s : St} (ns : List Name) (h : Inv s) : Inv (evict s ns) :=
+  { kind := ⟨h.kind.v, h.kind.w, h.kind.c, h.kind.out, h.kind.legacy, h.kind.ro, h.kind.rw, h.kind.txb⟩
+    mgr := h.mgr
+    tx := h.tx
+    join := h.join
+    defers := h.defers
+    bounds := ⟨by intro n o hm; simp only [evict] at hm; split at hm <;> first | exact absurd hm (by simp) | exact h.bounds.map n o hm,
+               h.bounds.wr, h.bounds.rem, h.bounds.df, h.bounds.ex, h.bounds.use⟩
+    rd := ⟨h.rd.rl, h.rd.nodup, h.rd.excl⟩
+    pub := ⟨h.pub.ex, h.pub.use, h.pub.df, h.pub.rem,
+            by intro n o hm; simp only [evict] at hm; split at hm <;> first | exact absurd hm (by simp) | exact h.pub.map n o hm,
+            h.pub.wr, h.pub.priv, h.pub.late, h.pub.cold⟩
+    names := ⟨by intro n o hm; simp only [evict] at hm; split at hm <;> first | exact absurd hm (by simp) | exact h.names.map n o hm,
+              h.names.wr, h.names.rem, h.names.ex, h.names.nw⟩
+    keys := ⟨h.keys.wr, h.keys.rem⟩
+    none := h.none
+    remsub := h.remsub
+    pend := h.pend
+    w := h.w }
+
 end Sema.C11
